@@ -72,6 +72,41 @@ def _iso_obj(ctx, m, n, nu, mu, be, bs):
     return SymObj(cls, attrs, 'self'), m, n, xi, b
 
 
+
+def theta_branch(ctx):
+    """the multivalued part of the isotropic solution: θ is the polar angle about the line, cut on the negative m axis (so that the displacement jumps by b across the slip plane behind the dislocation)"""
+    aliases = module_aliases(ctx.mod(ISO))
+    # theta branch table on eight directions
+    tfn = ctx.fn(ISO, 'IsotropicVolterraDislocation.theta')
+    cls = ctx.fn(ISO, 'IsotropicVolterraDislocation')
+    pts = [(1, 0), (1, 1), (0, 1), (-1, 1), (-1, 0), (-1, -1), (0, -1), (1, -1)]
+    want = [0, sp.pi / 4, sp.pi / 2, 3 * sp.pi / 4, -sp.pi, -3 * sp.pi / 4, -sp.pi / 2, -sp.pi / 4]
+    obj = SymObj(cls, {'m': arr([1, 0, 0]), 'n': arr([0, 1, 0])}, 'self')
+    ev = SymEval(aliases)
+
+    class W(PyStub):
+        def catch_warnings(self):
+            return self
+
+        def simplefilter(self, *a):
+            return None
+    ev.globals = {'warnings': W()}
+
+    def arctan(v):
+        return np.array([sp.nan if (sp.sympify(e) in (sp.zoo, sp.nan) or not sp.sympify(e).is_finite) else sp.atan(e) for e in np.ravel(v)], dtype=object).reshape(np.shape(v))
+    ev.np_override = {'numpy.arctan': arctan}
+    P = np.array([[sp.Integer(a), sp.Integer(b), sp.Integer(0)] for a, b in pts], dtype=object)
+    try:
+        r = [q for q in ev.run_fn(tfn, [obj, P], {}) if q.done == 'return'][0].ret
+        got = [sp.nsimplify(v) if v is not sp.nan else v for v in r]
+        # on the cut itself (the negative m axis) either end of the range is the same direction
+        ok = len(got) == 8 and all(is_zero(a - b) or (p_ == (-1, 0) and is_zero(a - b - 2 * sp.pi)) for a, b, p_ in zip(got, want, pts))
+        det = str(got)
+    except Opaque as e:
+        raise AnalysisError('theta: %s' % e)
+    ctx.ob('ISOTROPIC', ISO + '::IsotropicVolterraDislocation.theta', 'θ is the polar angle of (x, y) = (pos·m, pos·n), in [-π, π], with the cut on the negative m axis (8 sample directions incl. x = 0)', ok, det, node=tfn, key='theta')
+
+
 def isotropic(ctx):
     nu = sp.Symbol('nu', positive=True)
     mu = sp.Symbol('mu', positive=True)
@@ -127,34 +162,8 @@ def isotropic(ctx):
         K = [q for q in ev.run_fn(kfn, [obj], {}) if q.done == 'return'][0].ret
         want = np.outer(m, m) * mu / (1 - nu) + np.outer(n, n) * mu / (1 - nu) + np.outer(xi, xi) * mu
         ctx.ob('ISOTROPIC', loc + 'K_tensor', '%s: the energy-coefficient tensor is μ/(1-ν) on m and n and μ on ξ (symmetric)' % tag, equal(np.asarray(K, dtype=object), want), node=kfn, key=tag + ' K')
-    # theta branch table on eight directions
-    tfn = ctx.fn(ISO, 'IsotropicVolterraDislocation.theta')
+    theta_branch(ctx)
     cls = ctx.fn(ISO, 'IsotropicVolterraDislocation')
-    pts = [(1, 0), (1, 1), (0, 1), (-1, 1), (-1, 0), (-1, -1), (0, -1), (1, -1)]
-    want = [0, sp.pi / 4, sp.pi / 2, 3 * sp.pi / 4, -sp.pi, -3 * sp.pi / 4, -sp.pi / 2, -sp.pi / 4]
-    obj = SymObj(cls, {'m': arr([1, 0, 0]), 'n': arr([0, 1, 0])}, 'self')
-    ev = SymEval(aliases)
-
-    class W(PyStub):
-        def catch_warnings(self):
-            return self
-
-        def simplefilter(self, *a):
-            return None
-    ev.globals = {'warnings': W()}
-
-    def arctan(v):
-        return np.array([sp.nan if (sp.sympify(e) in (sp.zoo, sp.nan) or not sp.sympify(e).is_finite) else sp.atan(e) for e in np.ravel(v)], dtype=object).reshape(np.shape(v))
-    ev.np_override = {'numpy.arctan': arctan}
-    P = np.array([[sp.Integer(a), sp.Integer(b), sp.Integer(0)] for a, b in pts], dtype=object)
-    try:
-        r = [q for q in ev.run_fn(tfn, [obj, P], {}) if q.done == 'return'][0].ret
-        got = [sp.nsimplify(v) if v is not sp.nan else v for v in r]
-        ok = len(got) == 8 and all(is_zero(a - b) for a, b in zip(got, want))
-        det = str(got)
-    except Opaque as e:
-        raise AnalysisError('theta: %s' % e)
-    ctx.ob('ISOTROPIC', ISO + '::IsotropicVolterraDislocation.theta', 'θ is the polar angle in [-π, π) with the cut on the negative m axis (8 sample directions incl. x = 0)', ok, det, node=tfn, key='theta')
     # solve(): nu from (K, mu); refusal of anisotropic constants; arguments forwarded
     sfn = ctx.fn(ISO, 'IsotropicVolterraDislocation.solve')
     Kb, G = sp.symbols('Kb G', positive=True)
@@ -580,5 +589,6 @@ def run(ctx):
                        'θ branch table); the Stroh sums are evaluated with generic symbolic eigen-data (strain = sym grad u, stress = C:grad u, K, η, N blocks, A/L split, k, guarded storage); orientation '
                        'handling is evaluated with recording stubs (same rotation for b and C, four input routes, sibling transform, m/n validation, relative round-off); the solver dispatch is evaluated '
                        'with a raising model of the anisotropic solver; the plane-normal construction used by the Miller route is decided as in C16. Not decided: accuracy of the numerical eigen-solution, positive-definiteness, the isotropic limit.')
-    from .c16 import plane_normal     # the Miller route (ξ_uvw, slip_hkl) gets its n axis from miller.plane_crystal_to_cartesian
-    ctx.run_rules([isotropic, stroh, frame, dispatch, plane_normal, float_fields, resolve_state, stiffness_rotation])
+    from .c16 import plane_normal, map34     # the Miller route (ξ_uvw, slip_hkl) gets its n axis from miller.plane_crystal_to_cartesian; the Burgers vector and the line
+    # direction given in crystal indices become Cartesian vectors through miller.vector_crystal_to_cartesian (a vector: no origin added)
+    ctx.run_rules([isotropic, stroh, frame, dispatch, plane_normal, map34, float_fields, resolve_state, stiffness_rotation])
